@@ -309,7 +309,7 @@ fn judge_and_record(
             // a panic is a C03 violation whatever property is being checked; it is
             // reported under the requested property only if that is C03 (or C14 in fault runs)
             let f = Failure {
-                props: &["C03", "C14"],
+                props: exec::CURRENT_PROPS.with(|c| c.get()),
                 check: "panic",
                 tick: if tick == usize::MAX { 0 } else { tick },
                 detail: msg,
@@ -653,9 +653,10 @@ fn cmd_replay(a: &Args) -> i32 {
                 eprintln!("HARNESS ERROR: harness panicked: {msg}");
                 return 2;
             }
-            println!("FAIL props=[C03,C14] check=panic event={tick} detail={msg}");
+            let props = exec::CURRENT_PROPS.with(|c| c.get());
+            println!("FAIL props={props:?} check=panic event={tick} detail={msg}");
             match &prop {
-                Some(p) if p != "C03" && p != "C14" => 0,
+                Some(p) if !prop_matches(props, p.as_str()) => 0,
                 _ => 1,
             }
         }
